@@ -96,6 +96,7 @@ type delivery struct {
 	ReqDelay  time.Duration
 	Touches   []time.Time // accepted touches
 	pendingTouch []time.Time
+	touchStep    int // epoch of the latest TOUCH sent for this delivery
 	Voided    bool // channel emptied / deleted after this delivery
 	lifetime    int
 	fateUnknown bool
@@ -176,6 +177,7 @@ type consumer struct {
 	RdyStep  int   // step of the last RDY change
 	RdyPrev  int64 // value before the last change
 	MsgTimeout time.Duration
+	ConnAt   time.Time
 	OBT      time.Duration // output buffer timeout in effect; -1 = buffered without timeout
 	Unbuffered bool
 	Sample   int
@@ -396,7 +398,9 @@ func (w *qWorld) markTopicCreated(name string) {
 		t.CreatedStep = w.epoch
 		t.AckedMsgs, t.AckedBytes, t.UnknownMsgs, t.UnknownBytes = 0, 0, 0, 0
 		t.Paused = false
-		t.Tainted = w.inBurst
+		// a publish of unknown outcome may have created it earlier: its counters are then not known exactly
+		t.Tainted = w.inBurst || t.ExistUnknown
+		t.ExistUnknown = false
 	}
 }
 
@@ -472,6 +476,9 @@ func (w *qWorld) ackPubs(ps []*pubRec, ok bool, unknown bool) {
 			p.Unknown = true
 			t.UnknownMsgs++
 			t.UnknownBytes += int64(len(p.Key))
+			if !t.Exists {
+				t.ExistUnknown = true
+			}
 		case ok:
 			p.Acked = true
 			if !t.Exists {
@@ -514,6 +521,20 @@ func (w *qWorld) opPub(op Op) func() {
 	switch kind {
 	case 0, 2: // PUB / DPUB over TCP
 		c, idx := w.pubConn(connSel)
+		onConsumer := false
+		if op.S == "cotopic" {
+			// to the topic of the selected consumer (so that it has output buffered)
+			if co := w.liveConsumer(connSel); co != nil {
+				topic = co.Topic
+			}
+		} else if connSel >= 3 {
+			// publish over a subscribed consumer connection: responses and
+			// message frames then share one output stream
+			if co := w.liveConsumer(connSel); co != nil && co.Subscribed && !co.Closing {
+				c, idx, onConsumer = co.cl, 100+co.Idx, true
+				w.rc.Probe("pub_on_consumer_connection")
+			}
+		}
 		if c == nil {
 			return nil
 		}
@@ -532,8 +553,20 @@ func (w *qWorld) opPub(op Op) func() {
 			deferMs, expect = w.expectDefer(spell, false)
 			line = "DPUB " + topic + " " + spell
 		}
+		if onConsumer && op.S == "tick" {
+			// send at the very instant the connection's output-buffer timer fires
+			if co := w.liveConsumer(connSel); co != nil {
+				if d := co.untilTick(); d > 0 && d <= 5*time.Millisecond {
+					time.Sleep(d)
+					w.rc.Probe("command_at_flush_tick")
+				}
+			}
+		}
 		p := w.recordPub(body, topic, "tcp", idx, deferMs, 0, 0)
 		c.Cmd(line, body)
+		if onConsumer {
+			return func() { w.completeConsumerPub(c, []*pubRec{p}); w.checkDeferOutcome(p, expect, "DPUB", spellS, len(body)) }
+		}
 		return func() { w.completeTCPPub(c, []*pubRec{p}); w.checkDeferOutcome(p, expect, "DPUB", spellS, len(body)) }
 	case 1: // MPUB over TCP
 		c, idx := w.pubConn(connSel)
@@ -608,6 +641,38 @@ func (w *qWorld) completeTCPPub(c *V2Client, ps []*pubRec) {
 	}
 }
 
+// completeConsumerPub: the answer to a publish sent over a consumer connection
+// (the other non-message frames there belong to FIN/REQ/TOUCH commands).
+func (w *qWorld) completeConsumerPub(c *V2Client, ps []*pubRec) {
+	f, ok := c.WaitFrame(60*time.Second, func(f Frame) bool {
+		if f.Type == frameResponse {
+			return string(f.Data) == "OK"
+		}
+		if f.Type == frameError {
+			switch errCode(f.Data) {
+			case "E_FIN_FAILED", "E_REQ_FAILED", "E_TOUCH_FAILED":
+				return false
+			}
+			return true
+		}
+		return false
+	})
+	switch {
+	case !ok:
+		w.rc.Logf("pub on %s: no answer (closed=%v)", c.Name, c.Closed())
+		w.ackPubs(ps, false, true)
+	case f.Type == frameResponse:
+		w.ackPubs(ps, true, false)
+	case !strings.Contains(string(f.Data), "PUB "):
+		// a fatal error that answers another command of this connection
+		w.rc.Logf("pub on %s: connection failed first: %s", c.Name, f.Data)
+		w.ackPubs(ps, false, true)
+	default:
+		w.rc.Logf("pub on %s rejected: %s", c.Name, f.Data)
+		w.ackPubs(ps, false, false)
+	}
+}
+
 func (w *qWorld) httpPub(pathq string, payload []byte, ps []*pubRec) func() {
 	done := make(chan HTTPResp, 1)
 	go func() { done <- httpDo(w.rc, "POST", w.httpAddr, pathq, payload, nil, nil, 120*time.Second) }()
@@ -635,7 +700,7 @@ func (w *qWorld) opSub(op Op) {
 		return
 	}
 	co := &consumer{Idx: len(w.cons), cl: cl, Topic: topic, Channel: ch, ck: topic + "/" + ch,
-		MsgTimeout: ms(w.cfg.MsgTimeoutMs), OBT: ms(w.cfg.OBTMs)}
+		MsgTimeout: ms(w.cfg.MsgTimeoutMs), OBT: ms(w.cfg.OBTMs), ConnAt: time.Now()}
 	w.cons = append(w.cons, co)
 	flags := op.D
 	opts := map[string]interface{}{"client_id": cl.Name, "hostname": "sim", "feature_negotiation": true, "user_agent": "verif"}
@@ -742,6 +807,15 @@ func (w *qWorld) setRdy(co *consumer, n int64) {
 	co.cl.Cmd(fmt.Sprintf("RDY %d", n), nil)
 }
 
+// untilTick: time until the next firing of the connection's output-buffer
+// ticker (started when the connection was set up), 0 if there is none.
+func (co *consumer) untilTick() time.Duration {
+	if co.OBT <= 0 {
+		return 0
+	}
+	return co.OBT - time.Since(co.ConnAt)%co.OBT
+}
+
 func (w *qWorld) liveConsumer(i int64) *consumer {
 	var live []*consumer
 	for _, c := range w.cons {
@@ -834,6 +908,7 @@ func (w *qWorld) opAnswer(op Op) {
 		co.cl.Cmd("REQ "+id+" "+spell, nil)
 	case "touch":
 		d.pendingTouch = append(d.pendingTouch, time.Now())
+		d.touchStep = w.epoch
 		co.cl.Cmd("TOUCH "+id, nil)
 	}
 }
